@@ -1210,7 +1210,8 @@ class C04(SearchCheck):
     rule = ("sequences of three fixed-depth searches sharing one PersistentState (hash 0 MB and 1 MB, a ucinewgame in some), "
             "positions from corpus/playouts/placements with at least one legal move; run in the checked (overflow-checking) "
             "and in the optimised harness profile, every job under catch_unwind; plus long runs of >255 searches and the "
-            "aspiration edge positions of the corpus; distinct = distinct jobs")
+            "aspiration edge positions of the corpus, and positions with 65-218 legal moves at depth >= 3 (move-count indexed "
+            "tables); distinct = distinct jobs")
     assumptions = ["termination under a real clock and absence of undefined behaviour in optimised builds are runtime facts "
                    "outside the model (partial)", "64-bit key assumed injective on the positions one search history touches"]
 
@@ -1232,6 +1233,12 @@ class C04(SearchCheck):
         d = 6 if self.tier == "quick" else 9
         for f in mates:
             lines.append(f"search\t1\t{f}||{d}|0|0;{mirror(f)}||{d}|0|0")
+        # nodes with more moves than any table indexed by the move count has columns (64): queens in the open
+        wide = ["6k1/5ppp/8/8/2Q1Q3/8/1Q3PPP/6K1 w - - 0 1", "3Q4/1Q4Q1/4Q3/2Q4R/Q4Q2/3Q4/1Q4Rp/1K1BBNNk w - - 0 1",
+                "4k3/8/8/3Q1Q2/8/2Q3Q1/8/4K3 w - - 0 1"]
+        dw = 3 if self.tier == "quick" else 4
+        for f in wide:
+            lines.append(f"search\t1\t{f}||{dw}|0|0;{mirror(f)}||{dw}|0|0")
         with open(req_path) as f:
             body = f.read()
         with open(req_path, "w") as f:
@@ -1600,7 +1607,8 @@ class C13(UciCheck):
     gen_modules = ("SearchParams",)
     rule = ("for every advertised spin option (read from the binary's `option` lines and cross-checked against the "
             "regenerated Gen/SearchParams) the boundary values, neighbours and random interior values are set before and "
-            "between searches on the real binary; after each: isready must be answered and `go depth 3` must return a move "
+            "between searches on the real binary; after each: isready must be answered and `go depth 3` (for Move Overhead: with "
+            "clocks, alternately longer and shorter than the overhead) must return a move "
             "that the Rules spec accepts as legal; the search model run with the same hash size must return the same move; "
             "distinct = distinct (option, value)")
 
@@ -1654,7 +1662,13 @@ class C13(UciCheck):
                         e.send("ucinewgame")
                         first = False
                     e.send(f"position fen {fen}")
-                    go = "go depth 3" if name != "Move Overhead" else "go wtime 2000 btime 2000 depth 3"
+                    if name != "Move Overhead":
+                        go = "go depth 3"
+                    elif len(records) % 2 == 0 or v < 2:
+                        go = "go wtime 2000 btime 2000 depth 3"
+                    else:
+                        # a clock shorter than the configured overhead is something a GUI can send too
+                        go = f"go wtime {max(1, v // 2)} btime {max(1, v // 2)} depth 3"
                     e.send(go)
                     got, _ = e.read_until(lambda l: l.startswith("bestmove"), 60)
                     if got is None:
